@@ -79,8 +79,13 @@ func propDirect(t *rapid.T) {
 	proof := cashu.Proof{Amount: 1, Id: "00c13c13c13c13c1", Secret: secret, C: "02" + strings.Repeat("11", 32), Witness: witness}
 	rec.Eval()
 	ns, derr := nut10.DeserializeSecret(secret)
-	if derr != nil {
-		t.Fatalf("generator produced a secret nut10 cannot parse: %v", derr)
+	if c.Form != "" {
+		rec.Class("direct_secret_form=" + c.Form)
+	}
+	if derr != nil || ns.Kind != nut10.HTLC {
+		// every generated secret is the JSON of an HTLC secret, in whatever spelling
+		violate(t, "direct|lock_not_recognised|form="+c.Form, "DeserializeSecret: kind %v err %v for secret %q", ns.Kind, derr, secret)
+		return
 	}
 	var err error
 	var pv any
